@@ -114,7 +114,24 @@ def predicates(F, R):
                     lens.add(int(m.group(1)))
         if s.i == 'T' and n[0] == 'switch' and n[1][0] in ('c', 'm') and any(isinstance(x, str) and x.startswith('[') for x in n[1][1][1:]):
             bytes_.append(sorted(v for v, t in n[2]))
-    R.ob('PATTERN', 'PATTERN::%s::exactly-empty-dot-dotdot' % fnkey(g), lens == {0, 1, 2} and bytes_ == [[46], [46], [46]], 'slice lengths tested: %s, byte patterns: %s; required lengths {0,1,2} with every byte == 46 (\'.\'): "", ".", ".."' % (sorted(lens), bytes_), '%s:%s' % (g.file, g.line), g)
+    # the same set written with comparisons: `value.is_empty() || value == b"." || value == b".."`
+    lits = set()
+    for s in g.sites:
+        if s.is_call and re.search(r'\[T\]>::is_empty$', s.callee or ''):
+            lits.add('')
+        if s.is_call and re.search(r'PartialEq.*::eq$', s.callee or ''):
+            for a_ in s.args:
+                p_ = g.prov_operand(a_)
+                if p_.root[0] == 'const' and len(p_.root[1]) > 4 and isinstance(p_.root[1][4], str):
+                    m = re.match(r'^promoted\[b"(.*)"\]$', p_.root[1][4])
+                    if m:
+                        lits.add(m.group(1))
+    if lits and not bytes_ and not lens:
+        R.ob('PATTERN', 'PATTERN::%s::exactly-empty-dot-dotdot' % fnkey(g), lits == {'', '.', '..'}, 'compared against the literals %s; required exactly "", ".", ".."' % sorted(lits), '%s:%s' % (g.file, g.line), g)
+    elif not lits and not bytes_ and not lens:
+        R.notes.append('PATTERN::%s::exactly-empty-dot-dotdot: neither a slice pattern nor literal comparisons recognised - not judged' % fnkey(g))
+    else:
+      R.ob('PATTERN', 'PATTERN::%s::exactly-empty-dot-dotdot' % fnkey(g), lens == {0, 1, 2} and bytes_ == [[46], [46], [46]], 'slice lengths tested: %s, byte patterns: %s; required lengths {0,1,2} with every byte == 46 (\'.\'): "", ".", ".."' % (sorted(lens), bytes_), '%s:%s' % (g.file, g.line), g)
 
 
 def paths(F, R):
